@@ -232,7 +232,7 @@ def run(ctx):
     ext_lines = ["~~a~~", "a ~b~ c", "- [ ] t", "- [x] u", "[ ] v", "www.a.com", "see http://a.b/c d", "x@y.zz", "mailto:x@y.zz", "hello <title> w", "<script>\nx\n</script>",
                  "<!-- pyml disable-next-line md001-->", "<!-- pyml disable md009-->", "---", "a: b", "hm xw ww. htt", "what maxim exhumes",
                  # runs of the extensions' trigger characters that form none of their constructs, followed by a positioned inline element
-                 "aww *e*", "swwweet `c`", "ewww [l](/u)", "hhttp *e*", "mmm xx `c`", "a ~ b *e*", "wwww ![i](/u) <b>"]
+                 "<div>", "</div>", "if a <b<c then stop", "x <a<b y <c", "<<a <b", "aww *e*", "swwweet `c`", "ewww [l](/u)", "hhttp *e*", "mmm xx `c`", "a ~ b *e*", "wwww ![i](/u) <b>"]
     docs = list(gen.POOL) + list(gen.d_line(gen.V_ALL, 1)) + list(gen.d_line(ext_lines, 2, final_newline=(True,)))
     docs += gen.sample(list(gen.d_line(ext_lines + gen.V_CONT[:8] + gen.V_INLINE[:6], 3, final_newline=(True,))), 2500, 7)[:2500 if ctx.tier == "thorough" else 500]
     docs += gen.sample(list(gen.d_line(gen.V_ALL, 2, final_newline=(True,))), 4000 if ctx.tier == "thorough" else 0, 9)
